@@ -299,9 +299,13 @@ def opChunkFiles (j : Json) : M Json := do
       let n := es.length
       let H := tDone delay burst (n / per)
       let (c, k, tot) := simulate n per burst delay H
+      -- the step semantics of the same loop (C04 `submit_loop_step_semantics`: equal to the closed form)
+      let loop := match runLoop n per burst delay (H + 2) loopInit with
+        | some s => Json.mkObj [("submitted", jNat s.ii), ("now", jNat s.now), ("total", jNat (loopCount n per s))]
+        | none => Json.null
       pure (Json.mkObj [("files", Json.arr named.toArray), ("total", jNat total),
         ("first_closing", jNat (n / per)), ("sim_close_time", jNat c), ("sim_submitted", jNat k),
-        ("sim_total", jNat tot), ("sim_horizon", jNat H)])
+        ("sim_total", jNat tot), ("sim_horizon", jNat H), ("loop", loop)])
 
 /-- op storage_fault: byte sizes of the chunk files of a conversion and whether a
     per-file byte budget makes some conversion job fail (C05/C17).  Sizes are the
